@@ -1,4 +1,5 @@
 import NunavutVerif.Model.Namespace
+import NunavutVerif.Model.NamespaceGlue
 import NunavutVerif.Proto
 /-!
 Driver for the C11 correspondence.  One request per line, fields separated by one space; strings are
@@ -28,6 +29,21 @@ encoded as in `Proto` (code points joined by '.', `-` = empty string).
       `path suffix <seg> <ext>`      → parts of `PurePosixPath(seg).with_suffix(ext)` | `E…`
       `path rel <seg> <seg>`         → parts of `PurePosixPath(a).relative_to(PurePosixPath(b))` | `E…`
       `path posix <seg>`             → encoded `as_posix()`
+  the path glue (`Model/NamespaceGlue.lean`); `<glue>` stands for the six fields
+      `<route cli|api> <section> <files> <outdir|~> <ext|~> <stem|~>`
+      section : `@<language name>` (the section of properties.yaml from `Gen/NsGlue.lean`) or `key=value` pairs joined by ','
+                (`~` = null, `!` = empty section)
+      files   : sections of the `--configuration` files in order, joined by ';' (`!` = none)
+      outdir / ext / stem : the arguments exactly as given (`~` = not given / `None`; route `api` needs an outdir)
+  `glue <glue>`                      → `ok <outdir> <ext> <stem>` | `err:key`
+  `gtree <glue> <enable> <order> <strops> <types> <refs> <subs> <names>`
+                                     → the answer of `tree` for the configuration the route arrives at | `err:key`
+  `grun <nsTypes 0|1> <glue> <enable> <order> <strops> <types> <refs> <subs> <names>`
+                                     → `ok <files> <dirs>`: encoded `as_posix()` of every file a non-dry run opens for writing and
+                                       of every directory its `mkdir(parents=True)` calls may create, joined by ';' | `err:…`
+  `resolve <cwd> <links> <spelled>`  → parts of `os.path.realpath(spelled)`; cwd = physical parts joined by '/',
+                                       links = `<physical parts>><physical target parts>` joined by ',' (`!` = none)
+  `exttype <raw>`                    → encoded `extension_type(raw)`
 -/
 open NunavutVerif NunavutVerif.Namespace NunavutVerif.Proto
 
@@ -133,6 +149,96 @@ def answerPath (args : List String) : String :=
     | none => "bad-op"
   | _ => "bad-op"
 
+def optStr (s : String) : Option (Option Str) := if s = "~" then some none else (decodeStr s).map some
+
+def parseKV (s : String) : Option (Str × Option Str) :=
+  match splitOnChar s '=' with
+  | [k, v] => match decodeStr k, optStr v with
+    | some k, some v => some (k, v)
+    | _, _ => none
+  | _ => none
+
+def parseSection (s : String) : Option Section := listOf s ',' parseKV
+
+/-- `@<language name>` = the section of properties.yaml as regenerated into `Gen/NsGlue.lean`. -/
+def parseLangSection (s : String) : Option Section :=
+  if s.startsWith "@" then (decodeStr (s.drop 1).toString).bind langSection else parseSection s
+
+def parseParts (s : String) : Option Path := if s = "~" then some [] else (splitOnChar s '/').mapM decodeStr
+
+def parseLink (s : String) : Option (Path × Path) :=
+  match splitOnChar s '>' with
+  | [a, b] => match parseParts a, parseParts b with
+    | some a, some b => some (a, b)
+    | _, _ => none
+  | _ => none
+
+/-- The six `<glue>` fields → the configuration (minus `strop`/`enable`, supplied by the caller). -/
+def glueCfg (strop : Str → Str) (enable : Bool) (route sec files outdir ext stem : String) : Option (Except Err Cfg) :=
+  match parseLangSection sec, listOf files ';' parseSection, optStr outdir, optStr ext, optStr stem with
+  | some sec, some files, some outdir, some ext, some stem =>
+    if route = "cli" then some (cfgOfCli strop enable sec files ⟨outdir, ext, stem⟩)
+    else if route = "api" then
+      match outdir with
+      | some o => some (cfgOfApi strop enable sec files ext stem o)
+      | none => none
+    else none
+  | _, _, _, _, _ => none
+
+def dedup (l : List Path) : List Path := l.foldl (fun acc p => if acc.contains p then acc else acc ++ [p]) []
+
+def answerRun (nsTypes : Bool) (cfg : Cfg) (order : String) (tab : List (Str × Str))
+    (ts refs : List Ty) (subs names : List Str) : String :=
+  let needed := (ts ++ refs).flatMap (fun t => shortVer t :: t.ns) ++ (if ts.isEmpty then [[]] else [])
+  if needed.any (fun n => (tab.lookup n).isNone) then "err:strop-missing" else
+  match parseOrder order (loop1 cfg ts).idx with
+  | none => "err:order"
+  | some ks =>
+  let tr := buildWith cfg ts ks
+  if ¬ buildOk cfg tr then "err:value" else
+  let files := writtenFiles cfg tr nsTypes subs names
+  if files.any (fun r => !isOk r) then "err:value" else
+  let fs := okPaths files
+  "ok " ++ semi (fs.map (fun p => encodeStr (asPosix p))) ++ " " ++
+    semi ((dedup (fs.flatMap mkdirChain)).map (fun p => encodeStr (asPosix p)))
+
+def answerGlue (args : List String) : String :=
+  match args with
+  | ["glue", route, sec, files, outdir, ext, stem] =>
+    match glueCfg id true route sec files outdir ext stem with
+    | some (.ok cfg) => s!"ok {encodeStr cfg.outDir} {encodeStr cfg.ext} {encodeStr cfg.stem}"
+    | some (.error _) => "err:key"
+    | none => "bad-op"
+  | [op, route, sec, files, outdir, ext, stem, en, order, strops, types, refs, subs, names] =>
+    if op ≠ "gtree" ∨ ¬ (en = "0" ∨ en = "1") then "bad-op" else
+    match listOf strops ',' parsePair, listOf types ',' parseTy, listOf refs ',' parseTy,
+          listOf subs ',' decodeStr, listOf names ',' decodeStr with
+    | some tab, some ts, some refs, some subs, some names =>
+      match glueCfg (fun s => (tab.lookup s).getD s) (en = "1") route sec files outdir ext stem with
+      | some (.ok cfg) => answerTree false cfg.enable cfg.ext cfg.stem cfg.outDir order tab ts refs subs names
+      | some (.error _) => "err:key"
+      | none => "bad-op"
+    | _, _, _, _, _ => "bad-op"
+  | [op, nst, route, sec, files, outdir, ext, stem, en, order, strops, types, refs, subs, names] =>
+    if op ≠ "grun" ∨ ¬ (en = "0" ∨ en = "1") ∨ ¬ (nst = "0" ∨ nst = "1") then "bad-op" else
+    match listOf strops ',' parsePair, listOf types ',' parseTy, listOf refs ',' parseTy,
+          listOf subs ',' decodeStr, listOf names ',' decodeStr with
+    | some tab, some ts, some refs, some subs, some names =>
+      match glueCfg (fun s => (tab.lookup s).getD s) (en = "1") route sec files outdir ext stem with
+      | some (.ok cfg) => answerRun (nst = "1") cfg order tab ts refs subs names
+      | some (.error _) => "err:key"
+      | none => "bad-op"
+    | _, _, _, _, _ => "bad-op"
+  | ["resolve", cwd, links, spelled] =>
+    match parseParts cwd, listOf links ',' parseLink, decodeStr spelled with
+    | some cwd, some links, some spelled => showParts (resolveStr ⟨cwd, fun p => links.lookup p⟩ spelled)
+    | _, _, _ => "bad-op"
+  | ["exttype", raw] =>
+    match decodeStr raw with
+    | some raw => encodeStr (extensionType raw)
+    | none => "bad-op"
+  | _ => "bad-op"
+
 def answer (line : String) : String :=
   match line.splitOn " " with
   | [op, en, ext, stem, outDir, order, strops, types, refs, subs, names] =>
@@ -145,6 +251,6 @@ def answer (line : String) : String :=
       else "bad-op"
     | _, _, _, _, _, _, _, _ => "bad-op"
   | "path" :: args => answerPath args
-  | _ => "bad-op"
+  | args => answerGlue args
 
 def main : IO Unit := serve answer
